@@ -138,6 +138,10 @@ class Ctx:
         from vm import callstyle
         for k, v in callstyle.STATS.items():
             self.counters[k] = self.counters.get(k, 0) + v
+        from vm import clistyle
+        for k, v in clistyle.STATS.items():
+            if v:
+                self.counters[k] = self.counters.get(k, 0) + v
         return {'reach': self.reach.counts,
                 'evaluations': self.evaluations, 'fps': sorted(self.fps),
                 'counters': self.counters, 'samples': self.samples,
